@@ -2,13 +2,17 @@
 
 package main
 
-// The batch engine: a target is ONE shared primitive object (or ONE shared handle / key /
-// registry) with a list of calls. Every call carries the result the same call gave when executed
-// alone (the sequential oracle, computed beforehand on the main goroutine). A window runs G
-// goroutines which all perform every call of the target `reps` times, each in its own order, after
-// a common start barrier, and records every result that differs from the oracle. Nothing but the
-// per-goroutine slices is written by the goroutines; lines are emitted by the main goroutine after
-// wg.Wait().
+// The batch engine: a target is ONE shared object (primitive, handle, key, registry) with a list
+// of calls. Every call carries the result the same call gave when executed alone on that object
+// (the sequential oracle, computed beforehand by a single goroutine). A window runs G goroutines
+// which all perform every call of the target `reps` times, each in its own order, after a common
+// start barrier, and records every result that differs from the oracle.
+//
+// hlib.Out is not goroutine-safe: goroutines of a window write only their own slices; a job
+// collects its lines, counters and violations in a private report; the main goroutine replays the
+// reports in job order. Jobs on DIFFERENT objects run in a few parallel lanes (the slow sequential
+// oracles — SLH-DSA, RSA, P-521 — would otherwise leave 14 of 16 cores idle); an object is never
+// touched by two jobs.
 
 import (
 	"bytes"
@@ -91,16 +95,7 @@ func canon(b []byte) string {
 }
 
 func errStr(err error) string {
-	s := err.Error()
-	if len(s) > 80 {
-		s = s[:80]
-	}
-	return strings.Map(func(r rune) rune {
-		if r == '\n' || r == '\r' {
-			return ' '
-		}
-		return r
-	}, s)
+	return trunc(err.Error(), 80)
 }
 
 func trunc(s string, n int) string {
@@ -120,6 +115,35 @@ func safeDo(c *call, r *hlib.Rng) (res string) {
 	return c.do(r)
 }
 
+// ---------------------------------------------------------------- reports and lanes
+
+type report struct {
+	lines  [][2]string
+	counts map[string]int
+	viol   []string
+	class  string
+	id     string
+	dur    time.Duration
+	wins   int
+	calls  int
+	div    int
+}
+
+func newReport(id, class string) *report {
+	return &report{id: id, class: class, counts: map[string]int{}}
+}
+
+func (r *report) emit(line, res string)      { r.lines = append(r.lines, [2]string{line, res}) }
+func (r *report) count(k string)             { r.counts[k]++ }
+func (r *report) addn(k string, n int)       { r.counts[k] += n }
+func (r *report) violate(f string, a ...any) { r.viol = append(r.viol, fmt.Sprintf(f, a...)) }
+
+type job struct {
+	id   string
+	cost int
+	run  func() *report
+}
+
 type engine struct {
 	o       *hlib.Out
 	seed    uint64
@@ -128,26 +152,91 @@ type engine struct {
 	nWin    int
 	nCalls  int
 	diverge int
+	verbose bool
 }
 
-// selfCheck runs every call once on the main goroutine: the oracle must reproduce itself.
-func (e *engine) selfCheck(t *target) bool {
-	r := hlib.NewRng(e.seed, "self/"+t.id)
-	ok := true
+// runJobs executes the jobs in `lanes` parallel lanes (most expensive first) and replays their
+// reports in the order of the slice.
+func (e *engine) runJobs(jobs []job, lanes int) {
+	reps := make([]*report, len(jobs))
+	order := make([]int, len(jobs))
+	for i := range order {
+		order[i] = i
+	}
+	sort.SliceStable(order, func(a, b int) bool { return jobs[order[a]].cost > jobs[order[b]].cost })
+	ch := make(chan int, len(jobs))
+	for _, i := range order {
+		ch <- i
+	}
+	close(ch)
+	var wg sync.WaitGroup
+	for l := 0; l < lanes; l++ {
+		wg.Add(1)
+		go func() {
+			defer wg.Done()
+			for i := range ch {
+				t0 := time.Now()
+				var rep *report
+				if p := hlib.Recover(func() { rep = jobs[i].run() }); p != "" {
+					rep = newReport(jobs[i].id, "harness")
+					rep.violate("panic in job %s: %s", jobs[i].id, trunc(p, 300))
+				}
+				if rep != nil {
+					rep.dur = time.Since(t0)
+				}
+				reps[i] = rep
+			}
+		}()
+	}
+	wg.Wait()
+	for _, rep := range reps {
+		e.replay(rep)
+	}
+}
+
+func (e *engine) replay(rep *report) {
+	if rep == nil {
+		return
+	}
+	o := e.o
+	if len(rep.lines) > 0 || len(rep.viol) > 0 {
+		o.Case()
+	}
+	for _, l := range rep.lines {
+		o.Emit(l[0], l[1], true)
+	}
+	for k, n := range rep.counts {
+		o.Hist[k] += n
+	}
+	for _, v := range rep.viol {
+		o.Violate("%s", v)
+	}
+	e.classT[rep.class] += rep.dur
+	e.nWin += rep.wins
+	e.nCalls += rep.calls
+	e.diverge += rep.div
+	if e.verbose {
+		fmt.Fprintf(logw, "c18: job %-64s %6.2fs %4d lines\n", rep.id, rep.dur.Seconds(), len(rep.lines))
+	}
+}
+
+// ---------------------------------------------------------------- windows
+
+// selfCheck runs every call once more, alone: the oracle must reproduce itself.
+func selfCheck(rep *report, seed uint64, t *target) {
+	r := hlib.NewRng(seed, "self/"+t.id)
 	for i := range t.calls {
 		c := &t.calls[i]
 		if got := safeDo(c, r); got != c.want {
-			ok = false
-			e.o.Violate("sequential self-check failed (not a concurrency result): %s %s input=%s got=%s want=%s",
+			rep.violate("sequential self-check failed (the call, alone on its object, does not reproduce its own result): %s %s input=%s got=%s want=%s",
 				t.id, c.op, trunc(hlib.Tok(c.in), 64), trunc(got, 120), trunc(c.want, 120))
-			e.o.Count("SEQ-SELFCHECK-FAILED")
+			rep.count("SEQ-SELFCHECK-FAILED")
 		}
 	}
-	return ok
 }
 
 // window runs one concurrent batch and emits one line per operation of the target.
-func (e *engine) window(t *target, G, reps int) {
+func window(rep *report, seed uint64, t *target, G, reps int) {
 	if len(t.calls) == 0 {
 		return
 	}
@@ -155,7 +244,7 @@ func (e *engine) window(t *target, G, reps int) {
 	orders := make([][]int, G)
 	rngs := make([]*hlib.Rng, G)
 	for g := 0; g < G; g++ {
-		r := hlib.NewRng(e.seed, fmt.Sprintf("order/%s/%d/%d", t.id, G, g))
+		r := hlib.NewRng(seed, fmt.Sprintf("order/%s/%d/%d", t.id, G, g))
 		ord := make([]int, 0, n)
 		for k := 0; k < reps; k++ {
 			for i := range t.calls {
@@ -194,15 +283,14 @@ func (e *engine) window(t *target, G, reps int) {
 	}
 	close(startc)
 	wg.Wait()
-	e.nWin++
-	e.nCalls += G * n
+	rep.wins++
+	rep.calls += G * n
 
 	// per operation: inputs hash, calls per goroutine, first mismatch
 	type opInfo struct {
 		m     int
 		h     uint64
 		first *mismatch
-		nbad  int
 	}
 	infos := map[string]*opInfo{}
 	var names []string
@@ -223,9 +311,7 @@ func (e *engine) window(t *target, G, reps int) {
 	for g := 0; g < G; g++ {
 		for i := range bad[g] {
 			m := &bad[g][i]
-			oi := infos[m.op]
-			oi.nbad++
-			if oi.first == nil {
+			if oi := infos[m.op]; oi.first == nil {
 				oi.first = m
 			}
 		}
@@ -239,29 +325,29 @@ func (e *engine) window(t *target, G, reps int) {
 			m := oi.first
 			res = fmt.Sprintf("diverged:g=%d,call=%d,input=%s,got=%s,want=%s", m.g, m.idx, trunc(hlib.Tok(m.in), 64), trunc(m.got, 100), trunc(m.want, 100))
 			res = strings.ReplaceAll(res, " ", "_")
-			e.diverge++
-			e.o.Count("DIVERGED/" + t.class + "/" + op)
+			rep.div++
+			rep.count("DIVERGED/" + t.class + "/" + op)
 		}
-		e.o.Emit(line, res, true)
-		e.o.Count(fmt.Sprintf("batch/%s/%s/g%d", t.class, op, G))
-		e.o.Hist["calls/"+t.class+"/"+op] += G * oi.m
+		rep.emit(line, res)
+		rep.count(fmt.Sprintf("batch/%s/%s/g%d", t.class, op, G))
+		rep.addn("calls/"+t.class+"/"+op, G*oi.m)
 	}
-	e.checkGuards(t)
+	checkGuards(rep, t)
 }
 
 // checkGuards verifies that no input (or the spare capacity behind it) was written to.
-func (e *engine) checkGuards(t *target) {
+func checkGuards(rep *report, t *target) {
 	for _, g := range t.guard {
 		if !bytes.Equal(g.s[:cap(g.s)], g.copy) {
-			e.o.Violate("INPUT MODIFIED: %s wrote into a caller-owned input slice (len %d, first bytes %s): now %s, was %s", t.id, len(g.s),
-				trunc(hlib.Tok(g.copy), 32), trunc(hlib.Tok(g.s[:cap(g.s)]), 48), trunc(hlib.Tok(g.copy), 48))
-			e.o.Count("INPUT-MODIFIED/" + t.class)
+			rep.violate("INPUT MODIFIED: %s wrote into a caller-owned input slice (len %d): now %s, was %s", t.id, len(g.s),
+				trunc(hlib.Tok(g.s[:cap(g.s)]), 48), trunc(hlib.Tok(g.copy), 48))
+			rep.count("INPUT-MODIFIED/" + t.class)
 			copy(g.s[:cap(g.s)], g.copy)
 		}
 	}
 }
 
-// plan gives the goroutine counts, repetitions for a target of the given cost.
+// plan gives the goroutine counts and repetitions for a target of the given cost.
 func plan(cost int, light bool) (gs []int, reps int) {
 	th := hlib.Thorough()
 	switch cost {
@@ -280,13 +366,9 @@ func plan(cost int, light bool) (gs []int, reps int) {
 			gs = []int{2, 8}
 		}
 	}
-	if light {
+	if light && !th && len(gs) > 1 {
 		// secondary sources in the quick tier: the middle goroutine count only
-		if !th {
-			if len(gs) > 1 {
-				gs = gs[1:2]
-			}
-		}
+		gs = gs[1:2]
 	}
 	if th && cost == 0 {
 		gs = append(gs, 64)
@@ -294,24 +376,23 @@ func plan(cost int, light bool) (gs []int, reps int) {
 	return
 }
 
-// run executes a target: oracle self-check, fresh object, windows.
-func (e *engine) run(t *target, light bool) {
+// runTarget executes a target: oracle self-check, fresh object, windows.
+func runTarget(rep *report, seed uint64, t *target, light bool) {
 	if t == nil || len(t.calls) == 0 {
 		return
 	}
-	e.o.Case()
 	if t.cost <= 1 && !light {
-		e.selfCheck(t)
-		e.checkGuards(t)
+		selfCheck(rep, seed, t)
+		checkGuards(rep, t)
 	}
 	if t.fresh != nil {
 		t.fresh()
-		e.o.Count("fresh-object-first-use-concurrent/" + t.class)
+		rep.count("fresh-object-first-use-concurrent/" + t.class)
 	}
 	gs, reps := plan(t.cost, light)
 	for _, G := range gs {
-		e.window(t, G, reps)
+		window(rep, seed, t, G, reps)
 	}
-	e.o.Count("targets/" + t.class)
-	e.o.Count("targets-by-source/" + strings.SplitN(t.id, ":", 2)[0])
+	rep.count("targets/" + t.class)
+	rep.count("targets-by-source/" + strings.SplitN(t.id, ":", 2)[0])
 }
